@@ -198,6 +198,22 @@ def hostile_history(res):
     import monkeytype.encoding as enc
     from monkeytype.exceptions import MonkeyTypeError
 
+    # a class that merely shares module and qualified name with an importable one is ENCODED first (encoding succeeds for any class);
+    # decoding that text must still go by the name, i.e. give the importable class
+    from vf.fixtures import hier
+
+    try:
+        text = enc.type_to_json(hier.Dup1)
+        for _ in range(2):
+            T = enc.type_from_json(text)
+            if T is not hier.Dup:
+                res.violation("roundtrip-differs", f"{text} decodes to {T!r} (id {id(T)}), the importable object of that name is {hier.Dup!r} (id {id(hier.Dup)})", {"namesake": True})
+        T = enc.type_from_json(enc.type_to_json(hier.Dup2))
+        if T is not hier.Dup2:
+            res.violation("roundtrip-differs", "an importable class decodes to its non-importable namesake that was encoded earlier", {"namesake": True})
+        res.count("namesake_roundtrips")
+    except Exception as e:
+        res.violation(f"decode-raises:{type(e).__name__}", f"namesake classes: {e!r}", {"namesake": True})
     d = core.scratch("c08late")
     late = "vflate_%d" % os.getpid()
     probes = [("vf.fixtures.hie", "A"), ("vf.fixtures.h", "A"), ("vf.fixtures.func", "plain"), ("vf.fixtures", "hie"), ("vf.fixtures.hier", "Oute"),
@@ -233,6 +249,19 @@ def hostile_history(res):
         if tr.func is not mod.late_fn:
             res.violation("trace-function-differs", "function of a module that appeared after a failed look-up", {"late": True})
         res.count("late_module_roundtrips")
+        # the module is edited and reloaded: the name now denotes a new class and a new function
+        open(os.path.join(d, late + ".py"), "w").write("class Late:\n    v = 2\n\n\ndef late_fn(a, b=0):\n    return a\n")
+        os.utime(os.path.join(d, late + ".py"), (1, 1))
+        importlib.invalidate_caches()
+        old_cls = mod.Late
+        mod = importlib.reload(mod)
+        T = enc.type_from_json(enc.type_to_json(mod.Late))
+        if T is not mod.Late or T is old_cls:
+            res.violation("roundtrip-differs", "after a reload the class decodes to the object of the old definition", {"late": True, "reload": True})
+        tr = enc.CallTraceRow.from_trace(CallTrace(mod.late_fn, {"a": mod.Late}, mod.Late, mod.Late)).to_trace()
+        if tr.func is not mod.late_fn or tr.return_type is not mod.Late or tr.yield_type is not mod.Late:
+            res.violation("trace-roundtrip-differs", "after a reload a trace decodes to objects of the old definition", {"late": True, "reload": True})
+        res.count("reload_roundtrips")
     except Exception as e:
         res.violation(f"decode-raises:{type(e).__name__}", f"module that appeared after a failed look-up: {e!r}", {"late": True})
     finally:
@@ -288,7 +317,9 @@ def work(p):
     for i in range(p.get("traces", 0)):
         fname = names[i % len(names)]
         argn = rng.choice([0, 1, 2])
-        arg_types = {f"a{j}": rng.choice(pool) if pool else int for j in range(argn)}
+        # parameter names include the words the JSON encoding itself uses as keys (the argument table is a JSON object keyed by them)
+        argnames = rng.sample(["a0", "a1", "module", "qualname", "elem_types", "is_typed_dict", "self"], argn)
+        arg_types = {nm: rng.choice(pool) if pool else int for nm in argnames}
         from vf.fixtures import hier
 
         ret = rng.choice([None, NoneType, rng.choice(pool) if pool else int, hier.Registry])
@@ -330,6 +361,8 @@ def run(ck):
     ck.need("roundtrips", 8000)
     ck.need("hostile_lookups_rejected", 100)
     ck.need("late_module_roundtrips", 10)
+    ck.need("reload_roundtrips", 10)
+    ck.need("namesake_roundtrips", 10)
     ck.need("trace_roundtrips", 2000)
     ck.need("function_kinds", 18)
     ck.need("ret_yield_states", 9)
